@@ -130,8 +130,8 @@ def shapes(depth, tier="quick"):
                 base = base[::7]
         for x in base:
             for c in constructors(x):
-                if c[0] == "opt" and is_optlike(x):
-                    continue  # T?? is not expressible
+                if c[0] == "opt" and (is_optlike(x) or x[0] == "union"):
+                    continue  # T?? is not expressible; [A, B]? is a union in a union, which yardl rejects by rule
                 add(c)
                 nxt.append(c)
         if d == 1:
